@@ -9,63 +9,65 @@ Local Open Scope Z_scope.
 
 Definition Arg : Type := (Z * Z * Z * Z)%type.   (* the remaining size_t arguments of AddCrt / Remove: arbitrary *)
 
-(* ------------------------------------------------------------------ Open2N2<3> *)
-Definition o2_step n h := step n Gen_Open2N2.GetNextBucketIndex h BucketOps.O2.st BucketOps.O2.updP Arg BucketOps.O2.addP BucketOps.O2.remP BucketOps.O2.full.
-Definition o2_add n h := add n Gen_Open2N2.GetNextBucketIndex h BucketOps.O2.st BucketOps.O2.updP Arg BucketOps.O2.addP BucketOps.O2.full.
+(* ------------------------------------------------------------------ Open2N2<maxCount>, maxCount = 1, 2, 3 *)
+Definition o2_step mc n h := step n Gen_Open2N2.GetNextBucketIndex h BucketOps.O2.st BucketOps.O2.updP Arg (BucketOps.O2.addP mc) (BucketOps.O2.remP mc) BucketOps.O2.full.
+Definition o2_add mc n h := add n Gen_Open2N2.GetNextBucketIndex h BucketOps.O2.st BucketOps.O2.updP Arg (BucketOps.O2.addP mc) BucketOps.O2.full.
 Definition o2_find n h := find n Gen_Open2N2.GetNextBucketIndex h BucketOps.O2.st BucketOps.O2.dec.
-Definition o2_empty : table BucketOps.O2.st := {| bk := fun _ => []; bd := fun _ => BucketOps.O2.empty |}.
+Definition o2_empty mc : table BucketOps.O2.st := {| bk := fun _ => []; bd := fun _ => BucketOps.O2.empty mc |}.
 
-Lemma o2_add_spec a b : BucketOps.O2.good b -> 0 <= BucketOps.O2.cnt b < Z.of_nat 3 ->
-  BucketOps.O2.good (BucketOps.O2.addP a b) /\ BucketOps.O2.dec (BucketOps.O2.addP a b) = BucketOps.O2.dec b /\
-  BucketOps.O2.cnt (BucketOps.O2.addP a b) = BucketOps.O2.cnt b + 1.
-Proof. intros Hg Hc. apply BucketOps.O2.add_spec; [exact Hg|lia]. Qed.
-Lemma o2_rem_spec a b b' : BucketOps.O2.good b -> 0 < BucketOps.O2.cnt b <= Z.of_nat 3 -> BucketOps.O2.remP a b = Some b' ->
-  BucketOps.O2.good b' /\ BucketOps.O2.dec b' = BucketOps.O2.dec b /\ BucketOps.O2.cnt b' = BucketOps.O2.cnt b - 1.
-Proof. intros Hg Hc. apply BucketOps.O2.rem_spec; [exact Hg|lia]. Qed.
-
-Lemma o2_full_spec b : BucketOps.O2.good b -> 0 <= BucketOps.O2.cnt b <= Z.of_nat 3 ->
-  (BucketOps.O2.full b = true <-> BucketOps.O2.cnt b = Z.of_nat 3).
-Proof. intros Hg Hc. apply BucketOps.O2.full_iff; [exact Hg|lia]. Qed.
+Section O2.
+Variable mc : Z. Hypothesis Hmc : 1 <= mc <= 3.
+Lemma o2_add_spec a b : BucketOps.O2.good mc b -> 0 <= BucketOps.O2.cnt b < Z.of_nat (Z.to_nat mc) ->
+  BucketOps.O2.good mc (BucketOps.O2.addP mc a b) /\ BucketOps.O2.dec (BucketOps.O2.addP mc a b) = BucketOps.O2.dec b /\
+  BucketOps.O2.cnt (BucketOps.O2.addP mc a b) = BucketOps.O2.cnt b + 1.
+Proof. intros Hg Hc. apply (BucketOps.O2.add_spec mc Hmc); [exact Hg|lia]. Qed.
+Lemma o2_rem_spec a b b' : BucketOps.O2.good mc b -> 0 < BucketOps.O2.cnt b <= Z.of_nat (Z.to_nat mc) -> BucketOps.O2.remP mc a b = Some b' ->
+  BucketOps.O2.good mc b' /\ BucketOps.O2.dec b' = BucketOps.O2.dec b /\ BucketOps.O2.cnt b' = BucketOps.O2.cnt b - 1.
+Proof. intros Hg Hc. apply (BucketOps.O2.rem_spec mc Hmc); [exact Hg|lia]. Qed.
+Lemma o2_full_spec b : BucketOps.O2.good mc b -> 0 <= BucketOps.O2.cnt b <= Z.of_nat (Z.to_nat mc) ->
+  (BucketOps.O2.full b = true <-> BucketOps.O2.cnt b = Z.of_nat (Z.to_nat mc)).
+Proof. intros Hg Hc. rewrite Z2Nat.id by lia. apply (BucketOps.O2.full_iff mc Hmc); [exact Hg|lia]. Qed.
+End O2.
 
 (* Open2N2: every reachable table finds every present key; "full" only when all buckets are full *)
-Theorem open2n2_present_key_found n h ops b k :
-  0 <= n <= 63 -> (forall k, 0 <= h k < 2 ^ n) ->
-  let s := fold_left (o2_step n h) ops o2_empty in
+Theorem open2n2_present_key_found mc n h ops b k :
+  1 <= mc <= 3 -> 0 <= n <= 63 -> (forall k, 0 <= h k < 2 ^ n) ->
+  let s := fold_left (o2_step mc n h) ops (o2_empty mc) in
   In k (bk _ s b) -> o2_find n h s k = true.
 Proof.
-  intros Hn Hh. unfold o2_step, o2_find, o2_empty.
-  apply (present_key_found_all_histories n Hn Gen_Open2N2.GetNextBucketIndex 3%nat h BucketOps.O2.st
-    BucketOps.O2.good BucketOps.O2.dec BucketOps.O2.updP (BucketOps.O2.upd_good n Hn) (BucketOps.O2.upd_covers n Hn)
-    (BucketOps.O2.upd_keeps n Hn) Arg BucketOps.O2.cnt BucketOps.O2.addP BucketOps.O2.remP BucketOps.O2.full o2_full_spec
-    (BucketOps.O2.upd_cnt n Hn) o2_add_spec o2_rem_spec);
-    apply BucketOps.O2.empty_good.
+  intros Hmc Hn Hh. unfold o2_step, o2_find, o2_empty.
+  apply (present_key_found_all_histories n Hn Gen_Open2N2.GetNextBucketIndex (Z.to_nat mc) h BucketOps.O2.st
+    (BucketOps.O2.good mc) BucketOps.O2.dec BucketOps.O2.updP (BucketOps.O2.upd_good mc n Hn) (BucketOps.O2.upd_covers mc n Hn)
+    (BucketOps.O2.upd_keeps mc n Hn) Arg BucketOps.O2.cnt (BucketOps.O2.addP mc) (BucketOps.O2.remP mc) BucketOps.O2.full (o2_full_spec mc Hmc)
+    (BucketOps.O2.upd_cnt mc n Hn) (o2_add_spec mc Hmc) (o2_rem_spec mc Hmc));
+    apply (BucketOps.O2.empty_good mc).
 Qed.
 
-Theorem open2n2_counts_exact n h ops i :
-  0 <= n <= 63 -> (forall k, 0 <= h k < 2 ^ n) ->
-  let s := fold_left (o2_step n h) ops o2_empty in
-  BucketOps.O2.cnt (bd _ s i) = Z.of_nat (length (bk _ s i)) /\ (length (bk _ s i) <= 3)%nat.
+Theorem open2n2_counts_exact mc n h ops i :
+  1 <= mc <= 3 -> 0 <= n <= 63 -> (forall k, 0 <= h k < 2 ^ n) ->
+  let s := fold_left (o2_step mc n h) ops (o2_empty mc) in
+  BucketOps.O2.cnt (bd _ s i) = Z.of_nat (length (bk _ s i)) /\ (length (bk _ s i) <= Z.to_nat mc)%nat.
 Proof.
-  intros Hn Hh. unfold o2_step, o2_empty.
-  apply (count_exact_all_histories n Hn Gen_Open2N2.GetNextBucketIndex 3%nat h BucketOps.O2.st
-    BucketOps.O2.good BucketOps.O2.dec BucketOps.O2.updP (BucketOps.O2.upd_good n Hn) (BucketOps.O2.upd_covers n Hn)
-    (BucketOps.O2.upd_keeps n Hn) Arg BucketOps.O2.cnt BucketOps.O2.addP BucketOps.O2.remP BucketOps.O2.full o2_full_spec
-    (BucketOps.O2.upd_cnt n Hn) o2_add_spec o2_rem_spec);
-    apply BucketOps.O2.empty_good.
+  intros Hmc Hn Hh. unfold o2_step, o2_empty.
+  apply (count_exact_all_histories n Hn Gen_Open2N2.GetNextBucketIndex (Z.to_nat mc) h BucketOps.O2.st
+    (BucketOps.O2.good mc) BucketOps.O2.dec BucketOps.O2.updP (BucketOps.O2.upd_good mc n Hn) (BucketOps.O2.upd_covers mc n Hn)
+    (BucketOps.O2.upd_keeps mc n Hn) Arg BucketOps.O2.cnt (BucketOps.O2.addP mc) (BucketOps.O2.remP mc) BucketOps.O2.full (o2_full_spec mc Hmc)
+    (BucketOps.O2.upd_cnt mc n Hn) (o2_add_spec mc Hmc) (o2_rem_spec mc Hmc));
+    apply (BucketOps.O2.empty_good mc).
 Qed.
 
-Theorem open2n2_full_only_if_all_full n h ops k a :
-  0 <= n <= 63 -> (forall k, 0 <= h k < 2 ^ n) ->
-  let s := fold_left (o2_step n h) ops o2_empty in
-  o2_add n h s k a = None ->
-  forall b, 0 <= b < 2 ^ n -> (3 <= length (bk _ s b))%nat.
+Theorem open2n2_full_only_if_all_full mc n h ops k a :
+  1 <= mc <= 3 -> 0 <= n <= 63 -> (forall k, 0 <= h k < 2 ^ n) ->
+  let s := fold_left (o2_step mc n h) ops (o2_empty mc) in
+  o2_add mc n h s k a = None ->
+  forall b, 0 <= b < 2 ^ n -> (Z.to_nat mc <= length (bk _ s b))%nat.
 Proof.
-  intros Hn Hh. unfold o2_step, o2_add, o2_empty.
-  apply (full_only_if_all_full_all_histories n Hn Gen_Open2N2.GetNextBucketIndex (open2n2_next_spec n Hn) 3%nat h Hh BucketOps.O2.st
-    BucketOps.O2.good BucketOps.O2.dec BucketOps.O2.updP (BucketOps.O2.upd_good n Hn) (BucketOps.O2.upd_covers n Hn)
-    (BucketOps.O2.upd_keeps n Hn) Arg BucketOps.O2.cnt BucketOps.O2.addP BucketOps.O2.remP BucketOps.O2.full o2_full_spec
-    (BucketOps.O2.upd_cnt n Hn) o2_add_spec o2_rem_spec);
-    apply BucketOps.O2.empty_good.
+  intros Hmc Hn Hh. unfold o2_step, o2_add, o2_empty.
+  apply (full_only_if_all_full_all_histories n Hn Gen_Open2N2.GetNextBucketIndex (open2n2_next_spec n Hn) (Z.to_nat mc) h Hh BucketOps.O2.st
+    (BucketOps.O2.good mc) BucketOps.O2.dec BucketOps.O2.updP (BucketOps.O2.upd_good mc n Hn) (BucketOps.O2.upd_covers mc n Hn)
+    (BucketOps.O2.upd_keeps mc n Hn) Arg BucketOps.O2.cnt (BucketOps.O2.addP mc) (BucketOps.O2.remP mc) BucketOps.O2.full (o2_full_spec mc Hmc)
+    (BucketOps.O2.upd_cnt mc n Hn) (o2_add_spec mc Hmc) (o2_rem_spec mc Hmc));
+    apply (BucketOps.O2.empty_good mc).
 Qed.
 
 (* ------------------------------------------------------------------ OpenN1<maxCount> / Open8 (maxCount = 7) *)
@@ -163,11 +165,11 @@ Qed.
 Example table_example :
   let a : Arg := (0, 2, 0, 0) in
   let h := fun _ : Z => 1 in
-  let s := fold_left (o2_step 2 h) (map (fun k => OAdd Arg k a) [10; 11; 12; 13; 14; 15; 16; 17; 18; 19; 20; 21]) o2_empty in
+  let s := fold_left (o2_step 3 2 h) (map (fun k => OAdd Arg k a) [10; 11; 12; 13; 14; 15; 16; 17; 18; 19; 20; 21]) (o2_empty 3) in
   map (fun i => length (bk _ s i)) [0; 1; 2; 3] = [3; 3; 3; 3]%nat /\
-  o2_add 2 h s 22 a = None /\
+  o2_add 3 2 h s 22 a = None /\
   o2_find 2 h s 21 = true /\
-  let s2 := fold_left (o2_step 2 h) [ORemove Arg 1 10 (2, 0, 0, 0); OAdd Arg 30 a] s in
+  let s2 := fold_left (o2_step 3 2 h) [ORemove Arg 1 10 (2, 0, 0, 0); OAdd Arg 30 a] s in
   o2_find 2 h s2 30 = true /\ o2_find 2 h s2 21 = true /\ o2_find 2 h s2 10 = false /\
   map (fun i => BucketOps.O2.cnt (bd _ s2 i)) [0; 1; 2; 3] = [3; 3; 3; 3].
 Proof. vm_compute. repeat split. Qed.
